@@ -199,7 +199,7 @@ def get(ref: Any) -> tuple[Any, RefSchema]:
 
 # ------------------------------------------------------------------ random well-founded schemas
 
-_ATTR_DEFAULTS = [None, 0, 1, "x", "", [1, 2], {"k": [1]}, True]
+_ATTR_DEFAULTS = [None, 0, 1, "x", "", [1, 2], {"k": [1]}]  # no True/False: Python says True == 1, JSON does not
 
 
 def _rand_attrs(R: Draw, allow_required: bool) -> dict:
